@@ -189,7 +189,15 @@ def run_property(prop, tier, only_rule=None, quiet=False):
         viodir = os.path.join(VERIF, "build", "selftest-violations")
     new = []
     known_hit = {}
+    # one report per distinct (rule, function, site, sig): template instantiations of the same source construct are folded
+    folded = {}
     for v in ctx.violations:
+        key = (v["rule"], v["function"], v["site"], v["sig"])
+        if key in folded:
+            folded[key]["instances"] = folded[key].get("instances", 1) + 1
+        else:
+            folded[key] = v
+    for v in folded.values():
         v["_prop"] = prop
         k = is_known(v, known)
         if k:
@@ -211,7 +219,7 @@ def run_property(prop, tier, only_rule=None, quiet=False):
         if v.get("detail"):
             print("    %s" % v["detail"])
         if v.get("instantiation") and v["instantiation"] != v["function"]:
-            print("    instantiation: %s" % v["instantiation"][:200])
+            print("    instantiation: %s%s" % (v["instantiation"][:200], " (+%d more instantiations)" % (v["instances"] - 1) if v.get("instances", 1) > 1 else ""))
         print("VIOLATION property=%s replay=%s" % (prop, path))
     wall = time.time() - t0
     write_evidence(prop, tier, level, ctx, wall, len(new), mod,
